@@ -121,7 +121,9 @@ impl<'a> PeView<'a> {
 			let src = image.get(section.VirtualAddress as usize..u32::wrapping_add(section.VirtualAddress, section.VirtualSize) as usize);
 			// Skip invalid sections...
 			if let (Some(dest), Some(src)) = (dest, src) {
-				dest.copy_from_slice(src);
+				// The virtual size and the size of raw data are rarely equal, copy what fits
+				let len = cmp::min(dest.len(), src.len());
+				dest[..len].copy_from_slice(&src[..len]);
 			}
 		}
 
